@@ -1,6 +1,6 @@
-\* spec -> code: every edge of core T up to depth 3, with the observation of every state (workers 1)
-CONSTANTS NL = 5  NA0 = 4  NP0 = 1  NF = 2  MB = 3  MaxCascade = 3  MaxLoop = 3  MaxChain = 2  MaxLevel = 3  ReAdd = TRUE
-CONSTANTS Layout <- LayoutT  Place <- PlaceT  SFlagSets <- FlagsGPS  TrackSet <- Both  DbSet <- Both  Go <- GoBounded
+\* spec -> code (thorough): every edge of core S up to depth 3, all flag settings x tracking x built/database-loaded
+CONSTANTS NL = 4  NA0 = 3  NP0 = 1  NF = 2  MB = 3  MaxCascade = 3  MaxLoop = 3  MaxChain = 2  MaxLevel = 3  ReAdd = TRUE
+CONSTANTS Layout <- LayoutS  Place <- PlaceS  SFlagSets <- FlagsAll  TrackSet <- Both  DbSet <- Both  Go <- GoBounded
 ACTION_CONSTRAINT Emit
 INVARIANT EmitState
 INIT Init
